@@ -372,7 +372,7 @@ def evaluate(lines):
     obs = run_exec(lines)
     # `lensweep` is an executor-only bulk op (C17 thorough): the driver is given a no-op instead
     def exec_only(l):
-        return l.startswith("lensweep ") or l.startswith("repeat ")
+        return l.startswith("lensweep ") or l.startswith("repeat ") or l.startswith("sweep ")
     ans = run_driver_parallel([("conv cmd 00" if exec_only(l) else l) for l in lines],
                               [(None if (exec_only(l) or "sweep " in l[:10]) else o) for l, o in zip(lines, obs)])
     out = []
@@ -385,6 +385,13 @@ def evaluate(lines):
         if k in ("decsweep", "procsweep"):
             # digest of 65 536 observations on each side; equal digests = every observation equal
             out.append((o, a, {"*sweep": "agree" if o == a else "differ"}, {}))
+            continue
+        if k == "sweep":
+            # executor-only exhaustive enumeration of a small pure function against its closed form
+            t = o.split()
+            good = len(t) == 4 and t[0] == "swept" and t[2] == "0"
+            ap = ACTIVE_PROP[0] or "C18"
+            out.append((o, o, {ap: "ok" if good else "fail:closed-form-mismatch at " + (t[3] if len(t) > 3 else "?")}, {ap: "ok"}))
             continue
         if k == "repeat":
             # executor-only: the same operation `count` times on the same state; every answer must equal
@@ -807,7 +814,7 @@ def check_property(prop, tier, seed, max_search=20000):
                 if len(search_seeds) < 12 and not any(x.startswith("sweep-expanded") for x in fams[-1:]):
                     pass
             continue
-        relevant = (prop in iv) or (prop in mv) or kind in ("view", "conv", "new", "hdr") or iv.get("*") == "unparsed"
+        relevant = (prop in iv) or (prop in mv) or kind in ("view", "conv", "new", "hdr", "sweep") or iv.get("*") == "unparsed"
         if kind in ("seteid", "setuuid") and prop != "C13":
             relevant = False
         if not relevant:
@@ -949,6 +956,7 @@ def check_property(prop, tier, seed, max_search=20000):
     cov.update({
         "evaluations": n_eval + sweep_cases,
         "sweep_cases_digest_compared": sweep_cases,
+        "exhaustive_in_process_sweeps": [l for l in lines if l.startswith("sweep ") or l.startswith("lensweep ")][:8],
         "distinct_nontrivial": len(distinct),
         "rule": "systematic families first, random second (one PRNG, seed above); a case is an op line (with its context "
                 "history for stateful ops); non-trivial = the model does more than reject it at the transport/body header; "
